@@ -147,7 +147,20 @@ class C04(Prop):
                 rec2["ret"] = be.p_list(R2)
                 rec2["m1"] = be.p_list(M)
                 rec2["fresh"] = (R2 is not M) and (R2 is not R) and not _shares(be, R2, M) and not _shares(be, R2, R)
-                return [rec, rec2]
+                if n_ > 16:
+                    return [rec, rec2]
+                # ... and the changed map is a map like any other: its inverse is the inverse of what it is now
+                rec3 = {"op": "inverse", "m": be.p_list(R), "again": True}
+                R3 = R.inverse()
+                rec3["ret"] = be.p_list(R3)
+                rec3["m1"] = be.p_list(R)
+                rec3["fresh"] = (R3 is not R) and not _shares(be, R3, R)
+                M.rotate_by(be.pauli([1] * n_ + [2]))           # the original moves on as well
+                rec4 = {"op": "inverse", "m": rec3["m"], "again": True}
+                rec4["ret"] = be.p_list(R.inverse())
+                rec4["m1"] = be.p_list(R)
+                rec4["fresh"] = True
+                return [rec, rec2, rec3, rec4]
             elif k == "compose":
                 rec["a"], rec["b"] = scn["a"], scn["b"]
                 A, B = be.cmap(scn["a"]), be.cmap(scn["b"])
